@@ -1,13 +1,29 @@
 """C05 — decided by theorems in coq/Props/C05.v plus the sequential correspondence engine (scripts/seqprops.py)."""
-import seqprops
+import json
+import seqprops, crashengine
 TRUSTED = ['hand-written AM (Model/Afs.v), abs_disk/wf_disk (Model/Abs.v), agreement relations (Model/Agree.v): run extracted on the implementation disk and replies',
            'go-journal obj.Log.Load as the reader of the logical disk']
-ASSUMPTIONS = ['sequential client; checkpoints taken after each RPC has returned and the background shrinker is idle']
+ASSUMPTIONS = ['sequential client; checkpoints are judged when the background shrinker is idle (some sequences let it overlap the following calls and wait at explicit points)',
+               'crash part: one scripted large-file workload in four variants, crash points sampled from the freeing call onward']
 
 
 def run(ctx, ps, gen_bad):
-    return seqprops.run(ctx, 'C05', ps, gen_bad)
+    fails, cov = seqprops.run(ctx, 'C05', ps, gen_bad)
+    # crash images taken while a large file is being freed in the background (several transactions)
+    n = 24 if ctx.quick else 400
+    wl = [('bigshrink', 0, 3000, True, n, ctx.seed * 4 + 1), ('bigshrink', 0, 3000, True, n, ctx.seed * 4 + 2)]
+    if not ctx.quick:
+        wl += [('bigshrink', 0, 3000, True, n, ctx.seed * 4 + i) for i in (4, 5, 6, 7)] + [('crashmix', 60, 3000, True, 1500)]
+    f2, c2 = crashengine.run(ctx, 'C05', wl, own=r"alloc|wf=\\S*(BitSetUnowned|FreeOwns|InodeBitFree|InodeLeak|BitClear)")
+    fails += f2
+    cov['crash_images_during_background_free'] = c2['evaluations']
+    cov['crash_images_passing_every_relation'] = c2['distinct_nontrivial']
+    cov['crash_rule'] = c2['rule']
+    cov['evaluations'] += c2['evaluations']
+    return fails, cov
 
 
 def replay(ctx, path):
+    if 'budget' in json.load(open(path)):
+        return crashengine.replay(ctx, path)
     return seqprops.replay(ctx, path)
